@@ -45,6 +45,13 @@ func VerifH_C14_PublicKey() {
 			ct := rlwe.NewCiphertext(c.Params, 1, level)
 			vAssert(c.EncPk.Encrypt(pt, ct) == nil, tag+"-encrypt-under-collective-key-no-error")
 			vAssertNoiseFree(rQ, vDecrypt(c, c.Dec, ct), pt.Value, c.Params.NTTFlag(), 30, tag+"-collective-public-key-encrypts-for-the-sum-of-the-secrets")
+			// the generated key owns its polynomials: reusing the aggregate afterwards leaves it as it was
+			pk0 := c.Pk.CopyNew()
+			agg1.Value.Q.Zero()
+			crp[0].Value.Q.Zero()
+			for k := range pk0.Value {
+				vAssertPolyQPEq(rQP, c.Pk.Value[k], pk0.Value[k], tag+"-collective-public-key-independent-of-the-aggregate-and-the-reference-polynomial")
+			}
 		}
 	}
 	vCover("C14-cpk-reached")
